@@ -2,3 +2,4 @@ import BalmProofs.Props.C20
 #print axioms Balm.Depth.depth_is_longest
 #print axioms Balm.Depth.relax_to_local
 #print axioms Balm.KeyBits.key_injective
+#print axioms Balm.Impl.judgeStrict_sound
